@@ -4,8 +4,9 @@
 (* enumerated case with the specification's verdict (direction A).         *)
 (*                                                                         *)
 (* mode "flat":  s is a sequence of symbols; every sequence of base         *)
-(*   symbols of length <= MaxFlat, and every sequence of length             *)
-(*   <= MaxMacroFlat made of glue symbols and exactly one macro symbol.    *)
+(*   symbols of length <= MaxFlat (beyond length FullLen without the       *)
+(*   symbols in Rare), and every sequence of length <= MaxMacroFlat made   *)
+(*   of glue symbols and exactly one macro symbol.                         *)
 (*   A symbol expands to a sequence of character codes (a macro to a long  *)
 (*   one: a digest, a run of 127..256 characters, a host).                 *)
 (* mode "parts": s is <<host, repo, tag, digest>> chosen from tables of    *)
@@ -16,6 +17,7 @@ EXTENDS OciRef, TLC, Json
 
 CONSTANTS Base,           \* base symbols: a subset of AllBase
           MaxFlat,        \* longest sequence of base symbols
+          FullLen,        \* sequences longer than this do not use the symbols in Rare
           MaxMacroFlat,   \* longest flat sequence containing a macro symbol
           PartsLevel      \* 0: no parts mode, 1: small tables, 2: full tables
 
@@ -28,6 +30,7 @@ Colon == <<ChColon>>
 \* one representative per character class that the grammar distinguishes ("a": a-f, "x": g-z,
 \* "A": upper case, "0": digit, "!": every other byte)
 AllBase == {"a", "x", "A", "0", ".", "-", "_", ":", "/", "@", "[", "]", "!"}
+Rare == {"x"}       \* differs from "a" only inside an IPv6 literal
 GlueSyms == {"a", "A", ".", "-", ":", "/", "@"}
 MacroSyms == {"D256", "D384", "D512", "Dshort", "Dlong", "Dupper", "Dnonhex", "Dalg", "Dmism",
               "A127", "A128", "A129", "A254", "A255", "A256",
@@ -78,7 +81,8 @@ Init == s = <<>> /\ mode \in (IF PartsLevel > 0 THEN {"flat", "parts"} ELSE {"fl
 Next ==
   /\ UNCHANGED mode
   /\ \/ /\ mode = "flat" /\ NMacro(s) = 0 /\ Len(s) < MaxFlat
-        /\ \E y \in Base : s' = Append(s, y)
+        /\ \E y \in Base : /\ s' = Append(s, y)
+                           /\ Len(s) < FullLen \/ \A i \in 1..Len(s') : s'[i] \notin Rare
      \/ /\ mode = "flat" /\ Len(s) < MaxMacroFlat /\ \A i \in 1..Len(s) : s[i] \in GlueSyms \cup MacroSyms
         /\ \E y \in (IF NMacro(s) = 0 THEN MacroSyms ELSE GlueSyms) : s' = Append(s, y)
      \/ /\ mode = "parts" /\ Len(s) < 4
